@@ -30,6 +30,7 @@ type c09Scn struct {
 	reply      [][]byte
 	upEnd      string // close | half | wait
 	eofData    bool   // the connections deliver EOF together with their last bytes (as crypto/tls does)
+	serverFirst bool  // the client waits for the upstream's greeting before it sends anything
 }
 
 func (s c09Scn) String() string {
@@ -43,6 +44,9 @@ func (s c09Scn) String() string {
 	e := ""
 	if s.eofData {
 		e = " eof-with-last-bytes"
+	}
+	if s.serverFirst {
+		e += " client-waits-for-the-greeting"
 	}
 	return fmt.Sprintf("%s pxy=%v client-segments=[%s] client-then=%s reply-after=%d reply-segments=[%s] upstream-then=%s%s", s.kind, s.proxyProto, strings.Join(sl, ","), s.clientEnd, s.replyAfter, strings.Join(rl, ","), s.upEnd, e)
 }
@@ -106,6 +110,21 @@ func c09Body(s c09Scn, res *c09Result) func(x *vsched.X) {
 		}
 		x.Go("proxy", func() { serve(in) })
 		x.Go("client", func() {
+			if s.serverFirst {
+				want := 0
+				for _, r := range s.reply {
+					want += len(r)
+				}
+				b := make([]byte, 64)
+				for len(res.clientGot) < want {
+					n, err := client.Read(b)
+					res.clientGot = append(res.clientGot, b[:n]...)
+					if err != nil {
+						res.clientSawEOF = err == io.EOF
+						return
+					}
+				}
+			}
 			for _, seg := range s.segs {
 				if _, err := client.Write(seg); err != nil {
 					return
@@ -202,6 +221,11 @@ func c09Oracle(x *vsched.X, s c09Scn, r *c09Result) {
 		x.Fail("client-stream-not-a-prefix-of-reply", d())
 		return
 	}
+	if s.proxyProto && r.dials > 0 && len(r.log) == 0 && !bytes.HasPrefix(r.toUpstream, want) {
+		// nothing was closed and everything is at rest: the upstream must have been given the PROXY line
+		x.Fail("proxy-line-not-sent-on-an-established-tunnel", d())
+		return
+	}
 	first := ""
 	clientClosed, upClosed := false, false
 	for _, e := range r.log {
@@ -282,10 +306,27 @@ func c09Scenarios(thorough bool) []c09Scn {
 								if pxy && ra > 0 {
 									n += len("PROXY TCP4 192.0.2.7 10.0.0.1 51000 1234\r\n")
 								}
-								out = append(out, c09Scn{kind, pxy, sp, ce, n, rp, ue, false})
+								out = append(out, c09Scn{kind, pxy, sp, ce, n, rp, ue, false, false})
 							}
 						}
 					}
+				}
+			}
+		}
+	}
+	// server-first protocols (the upstream greets once it has seen the PROXY line, the client answers the
+	// greeting) and clients that send nothing at all
+	pl := len("PROXY TCP4 192.0.2.7 10.0.0.1 51000 1234\r\n")
+	for _, pxy := range []bool{true, false} {
+		ra := 0
+		if pxy {
+			ra = pl
+		}
+		for _, ce := range []string{"open", "half", "close"} {
+			for _, ue := range []string{"wait", "close"} {
+				out = append(out, c09Scn{kind: "tcp", proxyProto: pxy, segs: [][]byte{payload}, clientEnd: ce, replyAfter: ra, reply: [][]byte{reply}, upEnd: ue, serverFirst: true})
+				if ce != "half" {
+					out = append(out, c09Scn{kind: "tcp", proxyProto: pxy, segs: nil, clientEnd: ce, replyAfter: ra, reply: [][]byte{reply}, upEnd: ue})
 				}
 			}
 		}
@@ -320,11 +361,11 @@ func c09Scenarios(thorough bool) []c09Scn {
 					if !thorough && si%2 == 1 && ce == "close" {
 						continue
 					}
-					out = append(out, c09Scn{"sni", false, sp, ce, ra, [][]byte{reply}, ue, false})
+					out = append(out, c09Scn{"sni", false, sp, ce, ra, [][]byte{reply}, ue, false, false})
 				}
 			}
 		}
-		out = append(out, c09Scn{"sni", true, sp, "half", len(hp) + len("PROXY TCP4 192.0.2.7 10.0.0.1 51000 1234\r\n"), [][]byte{reply}, "close", false})
+		out = append(out, c09Scn{"sni", true, sp, "half", len(hp) + len("PROXY TCP4 192.0.2.7 10.0.0.1 51000 1234\r\n"), [][]byte{reply}, "close", false, false})
 	}
 	return out
 }
@@ -378,7 +419,7 @@ func TestVerifC09Tunnels(t *testing.T) {
 		// quick: every SNI scenario that splits inside / after the hello, and every third of the rest
 		var sub []c09Scn
 		for i, s := range scs {
-			if i%3 == 0 || s.eofData || (s.kind == "sni" && s.clientEnd != "close" && s.upEnd == "close") {
+			if i%3 == 0 || s.eofData || s.serverFirst || len(s.segs) == 0 || (s.kind == "sni" && s.clientEnd != "close" && s.upEnd == "close") {
 				sub = append(sub, s)
 			}
 		}
